@@ -430,7 +430,7 @@ where H: ElementHasher<BaseField = B> + Send + Sync {
 
 /// the same for an accepted proof of the Lagrange-kernel AIR (harness/src/lagfam.rs): the only proofs whose OOD frame
 /// carries Lagrange kernel states.  The rest of C03 keeps such AIRs out of scope; this class needs only the oracle.
-fn noncanonical_lagrange<B: Fld, H>(hname: &str, ext: FieldExtension, stats: &mut BTreeMap<String, Stats>, out: &mut Vec<String>)
+fn noncanonical_lagrange<B: Fld, H>(hname: &str, ext: FieldExtension, r: &mut Rng, stats: &mut BTreeMap<String, Stats>, out: &mut Vec<String>)
 where H: ElementHasher<BaseField = B> + Send + Sync {
     let (log_n, aw, nr) = (3u32, 2usize, 1usize);
     let opts = ProofOptions::new(4, 4, 0, ext, 2, 1);
@@ -445,28 +445,50 @@ where H: ElementHasher<BaseField = B> + Send + Sync {
     let Some(lay) = dissect(&bytes, proof.context.to_bytes().len(), 2) else { return };
     let desc = format!("field={} hasher={} lagrange-kernel AIR n={} aux={}/{} ext={:?} bytes={}", B::NAME, hname, 1 << log_n, aw, nr, ext, bytes.len());
     println!("nc-config {}", desc);
+    // one mutant of the Lagrange proof through the oracle: decoded content differs => rejected or parse error
+    let mut judge_lag = |class: &str, what: String, mutant: &[u8], stats: &mut BTreeMap<String, Stats>, out: &mut Vec<String>| {
+        if !CLASS_FILTER.with(|f| { let f = f.borrow(); f.is_empty() || class.contains(f.as_str()) }) { return; }
+        let st = stats.entry(class.to_string()).or_default();
+        st.mutants += 1;
+        let p2 = match catch(AssertUnwindSafe(|| Proof::from_bytes(mutant))) { Err(_) => { st.panics += 1; return; } Ok(Err(_)) => { st.parse_err += 1; return; } Ok(Ok(p)) => p };
+        if p2 == proof { st.same_content += 1; return; }
+        let v = catch(AssertUnwindSafe(|| verify::<LagAir<B>, H, DefaultRandomCoin<H>>(p2, (), &acc)));
+        let _ = lagfam::take_uses();
+        match v {
+            Err(_) => st.panics += 1,
+            Ok(Err(_)) => st.rejected += 1,
+            Ok(Ok(())) => {
+                st.accepted_diff += 1;
+                let mut kind = String::new();
+                for ch in what.chars() { if ch.is_ascii_digit() { if !kind.ends_with('#') { kind.push('#'); } } else { kind.push(ch); } }
+                if out.iter().any(|l| l.contains(&format!("\"kind\":{}", jstr(&format!("{}|{}", class, kind))))) { return; }
+                out.push(format!("{{\"what\":{},\"input\":{},\"expected\":\"rejected or parse error\",\"actual\":\"accepted\",\"class\":{},\"kind\":{},\"proof_hex\":{}}}",
+                    jstr(&format!("accepted mutant with different decoded content: {}: {}", class, what)), jstr(&desc), jstr(class), jstr(&format!("{}|{}", class, kind)), jstr(&hex_bytes(mutant))));
+            }
+        }
+    };
+    // `gkr:trailing-bytes`: bytes appended to the serialized GKR proof carried by the proof (`proof.gkr_proof`, an opaque
+    // byte vector; its vint64 length prefix follows from re-serialisation).  Proof content that nothing looks at unless the
+    // verifier insists that the GKR proof consumes its container
+    if let Some(g) = proof.gkr_proof.clone() {
+        for k in [1usize, 2, 17] {
+            for (fill, extra) in [("zero", vec![0u8; k]), ("0xff", vec![0xffu8; k]), ("random", r.bytes(k))] {
+                let mut p = proof.clone();
+                let mut nb = g.clone(); nb.extend_from_slice(&extra);
+                p.gkr_proof = Some(nb);
+                judge_lag("gkr:trailing-bytes", format!("gkr_proof ({} bytes): {} {} bytes appended", g.len(), k, fill), &p.to_bytes(), stats, out);
+            }
+        }
+        // the GKR proof cut short / emptied: must be refused as well (it is: the decoder runs out of bytes)
+        let mut p = proof.clone(); p.gkr_proof = Some(vec![]);
+        judge_lag("gkr:truncated", "gkr_proof emptied".into(), &p.to_bytes(), stats, out);
+    }
     for (name, elems, f, deg) in element_regions::<B>(&bytes, &lay, ext.degree() as usize, hname) {
         let tag = if name.starts_with("digest.") { hname.to_string() } else { B::NAME.to_string() };
         let (ms, _) = noncanon::mutants(&bytes, &name, &elems, &f, deg);
         for m in ms {
             let class = format!("noncanonical:{}:{}:{}", name, m.kind, tag);
-            if !CLASS_FILTER.with(|f| { let f = f.borrow(); f.is_empty() || class.contains(f.as_str()) }) { continue; }
-            let st = stats.entry(class.clone()).or_default();
-            st.mutants += 1;
-            let p2 = match catch(AssertUnwindSafe(|| Proof::from_bytes(&m.bytes))) { Err(_) => { st.panics += 1; continue; } Ok(Err(_)) => { st.parse_err += 1; continue; } Ok(Ok(p)) => p };
-            if p2 == proof { st.same_content += 1; continue; }
-            let v = catch(AssertUnwindSafe(|| verify::<LagAir<B>, H, DefaultRandomCoin<H>>(p2, (), &acc)));
-            let _ = lagfam::take_uses();
-            match v {
-                Err(_) => st.panics += 1,
-                Ok(Err(_)) => st.rejected += 1,
-                Ok(Ok(())) => {
-                    st.accepted_diff += 1;
-                    let what = format!("{} element {} ({}) limb {} := {}", name, m.elem, m.pos, m.limb, m.kind);
-                    out.push(format!("{{\"what\":{},\"input\":{},\"expected\":\"rejected or parse error\",\"actual\":\"accepted\",\"class\":{},\"kind\":{},\"proof_hex\":{}}}",
-                        jstr(&format!("accepted mutant with different decoded content: {}: {}", class, what)), jstr(&desc), jstr(&class), jstr(&format!("{}|lagrange", class)), jstr(&hex_bytes(&m.bytes))));
-                }
-            }
+            judge_lag(&class, format!("{} element {} ({}) limb {} := {}", name, m.elem, m.pos, m.limb, m.kind), &m.bytes, stats, out);
         }
     }
 }
@@ -1035,10 +1057,10 @@ fn main() {
         nc!(B62, Blake3_256<B62>, "blake3_256", X3, true, false);
         nc!(B62, Blake3_256<B62>, "blake3_256", X1, false, false);
         nc!(B62, Rp62_248, "rp62_248", X2, true, false);
-        noncanonical_lagrange::<B64, Blake3_256<B64>>("blake3_256", X2, &mut stats, &mut out);
-        noncanonical_lagrange::<B64, Rp64_256>("rp64_256", X1, &mut stats, &mut out);
-        noncanonical_lagrange::<B128, Blake3_256<B128>>("blake3_256", X2, &mut stats, &mut out);
-        noncanonical_lagrange::<B62, Blake3_256<B62>>("blake3_256", X3, &mut stats, &mut out);
+        noncanonical_lagrange::<B64, Blake3_256<B64>>("blake3_256", X2, &mut r, &mut stats, &mut out);
+        noncanonical_lagrange::<B64, Rp64_256>("rp64_256", X1, &mut r, &mut stats, &mut out);
+        noncanonical_lagrange::<B128, Blake3_256<B128>>("blake3_256", X2, &mut r, &mut stats, &mut out);
+        noncanonical_lagrange::<B62, Blake3_256<B62>>("blake3_256", X3, &mut r, &mut stats, &mut out);
     }
     for l in &out { println!("{}", l); }
     for d in &descs { println!("config {}", d); }
